@@ -675,6 +675,14 @@ func expectStep(c contSpec, st histState, s step) stepExpect {
 			}
 			e.classes = append(e.classes, "shrink:"+s.Op)
 			e.hard = true
+			if s.Op != "pop" { // shift / splice move elements: each is read into a Value and stored back
+				for _, el := range l.Elems {
+					if m16.IsInexactInt(el) {
+						e.known = append(e.known, m16.KStoreI64)
+						break
+					}
+				}
+			}
 			at := n - 1
 			switch s.Op {
 			case "shift":
